@@ -26,3 +26,6 @@ func vIte(c bool, a, b int64) int64   { return a }
 func vCatchExit(f func()) (int, bool) { f(); return 0, false }
 type vStop struct{}
 func vPermuteMaps(on bool) {}
+func vStubTimeFormat(on bool) {}
+func vFileData(id int) string { return "" }
+func vFileWrites(id int) int  { return 0 }
